@@ -83,7 +83,7 @@ def run(repo, chk):
     for n in ast.walk(ri):
         if isinstance(n, ast.If) and isinstance(n.test, ast.NamedExpr) and src(n.test.value).startswith('scan.match('):
             pat = src(n.test.value.args[0])
-            ret = [src(r.value) for r in n.body if isinstance(r, ast.Return)]
+            ret = [src(r.value) for s in n.body for r in ast.walk(s) if isinstance(r, ast.Return) and r.value is not None]
             pairs.append((pat, ret[0] if ret else None, n.lineno))
     pairs.sort(key=lambda x: x[2])
     got = {p: r for p, r, _ in pairs}
